@@ -433,6 +433,8 @@ def main(argv):
             if prop.nontrivial(c, mo):
                 stats["distinct"].add(digest(c))
         stats["samples"] = [prop.describe(c, mo) for c, mo in list(zip(cases, model_obs))[:3]]
+        if hasattr(prop, "extra_coverage"):
+            stats["extra"] = prop.extra_coverage(cases, model_obs)
         # if everything crashed the API has moved: not evaluable
         if cases and impl_by_seed and all(isinstance(o, dict) and ("crash" in o or "hang" in o)
                                           for obs in impl_by_seed.values() for o in obs):
@@ -512,6 +514,7 @@ def main(argv):
             "hashseeds": hashseeds,
             "disagreements": len(violations),
             "known_findings_hit": sorted(known_hit),
+            **stats.get("extra", {}),
         },
         "assumptions": getattr(prop, "ASSUMPTIONS", []),
         "wall_s": wall,
